@@ -1,6 +1,8 @@
 import Rc.Model.Framing
+import Rc.Model.SessionDecode
+import Rc.Drv.C01
 namespace Rc.Drv.C09
-open Rc Rc.Framing
+open Rc Rc.Framing Rc.SessionDecode
 
 /-! Model side of the C09 line protocol (see harness/src/props/c09.rs for the ops). -/
 
@@ -43,6 +45,15 @@ def bodyOf (tbl : List (Bytes × Char)) (f : Bytes) : Outcome WireMsg :=
     else if c == 'p' then .panic
     else .err
   | none => .err
+
+/-- the session the harness builds: `SessionConfig::modern()`, remote AS 65002 -/
+def defaultSc : SessCfg := ⟨modern, fun a => a == 65002⟩
+
+/-- the `<table>` argument: `*` = the model decides every frame itself with the concrete
+decoders (`Rc.SessionDecode.sessionBody`), anything else = the verdict table of the request -/
+def bodyOfArg (t : String) (stream : Bytes) : Option (Bytes → Outcome WireMsg) :=
+  if t == "*" then some (sessionBody defaultSc)
+  else (parseTable t stream).map bodyOf
 
 def chunksOf : Bytes → List Nat → List Bytes
   | _, [] => []
@@ -187,30 +198,102 @@ def runE2e (body : Bytes → Outcome WireMsg) (st : St) (d : Bool) (stream : Byt
     let outs := ticks.flatMap fun t => match t with | .handled _ _ o _ => o | _ => []
     s!"{",".intercalate ts} conn={b01 fin.conn} outs={showOuts outs}"
 
+/-- what the session sends to the application while handling message `m` (cut from `frame`) in
+state `s` (session.rs `handle_msg` and the OPEN-accepting arms): an UPDATE is forwarded only when
+Established, a NOTIFICATION always, `SessionNegotiated` when an OPEN is accepted -/
+def appEvents (s : Sess) (m : WireMsg) (frame : Bytes) : List String :=
+  match m with
+  | .update => if s.st == .established then [s!"U:{frame.length}:{hashBytes frame}"] else []
+  | .notification _ => [s!"N:{(frame.getD 19 0).toNat}.{(frame.getD 20 0).toNat}"]
+  | .open a b =>
+    let accepting := (s.delayOpen && (s.st == .connect || s.st == .active)) || (!s.delayOpen && s.st == .openSent)
+    if accepting && a && b && s.conn then ["S"] else []
+  | _ => []
+
+/-- `e2ec`: the run of `sessionRun` (every octet the peer sends is eventually buffered; by the
+chunking theorems the way it arrives and a command handled in between change nothing), with what
+reaches the application recorded.  The transitions are `tickMsg`'s; `parseFrame` is consulted
+only to name the frame a tick handled. -/
+def runE2ec (body : Bytes → Outcome WireMsg) : Nat → Sess → Bytes → List String → List Out → String
+  | 0, s, _, app, outs => s!"app={joinC app} end=ok st={natOfSt s.st} conn={b01 s.conn} outs={showOuts outs} same=1"
+  | n + 1, s, buf, app, outs =>
+    let fin (app : List String) («end» : String) (s : Sess) (outs : List Out) : String :=
+      s!"app={joinC app} end={«end»} st={natOfSt s.st} conn={b01 s.conn} outs={showOuts outs} same=1"
+    match tickMsg body s buf with
+    | .panic => "panic"
+    | .readErr => fin app "err" { s with st := .connect, conn := false } outs
+    | .eof => fin (app ++ ["L"]) "ok" { s with st := .connect, conn := false } outs
+    | .handled ok s' o rest =>
+      let ev := match parseFrame (decodeMsg body) buf with
+        | .ok (some ((m, frame), _)) => appEvents s m frame
+        | _ => []
+      if !ok then fin (app ++ ev) "err" s' (outs ++ o)
+      else if s'.conn then runE2ec body n s' rest (app ++ ev) (outs ++ o)
+      else fin (app ++ ev) "ok" s' (outs ++ o)
+
+def asn? (s : String) : Option Nat :=
+  if s.isEmpty || s.length > 10 || !s.toList.all Char.isDigit then none
+  else match s.toNat? with
+    | some n => if n < 4294967296 then some n else none
+    | none => none
+
+def showAp (l : List (Nat × Nat × Nat)) : String :=
+  joinC (l.map fun (a, s, d) => s!"{a}/{s}/{d}")
+
+/-- `dec`: one frame through `Message::from_octets` + the accessors of `handle_msg`, decided by
+the model from the bytes alone.  The verdict is what `decodeMsg (sessionBody sc)` says (the
+function the `_concrete` theorems are about); for an OPEN the values the arms copy out are
+printed as well. -/
+def runDec (sc : SessCfg) (f : Bytes) : String :=
+  match decodeMsg (sessionBody sc) f with
+  | .panic => "panic"
+  | .err => "err"
+  | .ok .keepalive => "k"
+  | .ok .update => "u"
+  | .ok .routeRefresh => "r"
+  | .ok (.notification v) => if v then "v" else "n"
+  | .ok (.open a b) =>
+    match msgFromOctets sc.cfg f with
+    | .ok (.open m) =>
+      match Open.myAsn m with
+      | .ok asn =>
+        if !a then s!"B asn={asn}"
+        else if !b then s!"C asn={asn}"
+        else
+          match openFacts m asn with
+          | .ok x => s!"A asn={x.asn} hold={x.hold} id={hexOrDash x.id} four={b01 x.four} ap={showAp x.addpath}"
+          | _ => "?"
+      | _ => "?"
+    | _ => "?"
+
 def handle (ws : List String) : String :=
   match ws with
+  | ["dec", c, a, h] =>
+    match Rc.Drv.C01.parseCfg c, asn? a, bytesOfHex h with
+    | some cfg, some asn, some f => runDec ⟨cfg, fun x => x == asn⟩ f
+    | _, _, _ => "bad-op"
   | ["feed", s, lens, t] =>
     match bytesOfHex s with
     | some s =>
-      match parseLens lens s.length, parseTable t s with
-      | some lens, some tbl => showRun (runChunks (decodeMsg (bodyOf tbl)) s lens)
+      match parseLens lens s.length, bodyOfArg t s with
+      | some lens, some body => showRun (runChunks (decodeMsg body) s lens)
       | _, _ => "bad-op"
     | none => "bad-op"
   | ["bytewise", s, t] =>
     match bytesOfHex s with
     | some s =>
-      match parseTable t s with
-      | some tbl => showRun (runChunks (decodeMsg (bodyOf tbl)) s (List.replicate s.length 1))
+      match bodyOfArg t s with
+      | some body => showRun (runChunks (decodeMsg body) s (List.replicate s.length 1))
       | none => "bad-op"
     | none => "bad-op"
   | [op, s, t] =>
     if op == "split2" || op == "split3" || op == "parts" then
       match bytesOfHex s with
       | some s =>
-        match parseTable t s with
-        | some tbl =>
+        match bodyOfArg t s with
+        | some body =>
           if op == "parts" && s.length > 22 then "bad-op"
-          else multi (decodeMsg (bodyOf tbl)) s op
+          else multi (decodeMsg body) s op
         | none => "bad-op"
       | none => "bad-op"
     else if op == "rm" then
@@ -222,11 +305,20 @@ def handle (ws : List String) : String :=
     match st.toNat? >>= stOfNat, d.toNat?, kindOf kind with
     | some st, some d, some m => if d > 1 then "bad-op" else runHm st (d == 1) m
     | _, _, _ => "bad-op"
+  | ["e2ec", st, d, s, lens, t] =>
+    match st.toNat? >>= stOfNat, d.toNat?, bytesOfHex s with
+    | some st, some d, some s =>
+      match parseLens lens s.length, bodyOfArg t s with
+      | some lens, some body =>
+        if d > 1 || lens.isEmpty then "bad-op"
+        else runE2ec body 48 { st := st, delayOpen := d == 1, conn := true } s [] []
+      | _, _ => "bad-op"
+    | _, _, _ => "bad-op"
   | ["e2e", st, d, s, t] =>
     match st.toNat? >>= stOfNat, d.toNat?, bytesOfHex s with
     | some st, some d, some s =>
-      match parseTable t s with
-      | some tbl => if d > 1 then "bad-op" else runE2e (bodyOf tbl) st (d == 1) s
+      match bodyOfArg t s with
+      | some body => if d > 1 then "bad-op" else runE2e body st (d == 1) s
       | none => "bad-op"
     | _, _, _ => "bad-op"
   | _ => "bad-op"
